@@ -470,7 +470,7 @@ func runChildPlan(plan []string, tpls []template, repo string, caseTimeout int) 
 				if current > 0 && current <= len(cases) {
 					lim := time.Duration(caseTimeout) * time.Second
 					if cases[current-1].big {
-						lim = 2 * time.Second // not worth 11 s: TLC re-checks that the case really is out of C09's scope
+						lim = 1 * time.Second // not worth 11 s: TLC re-checks that the case really is out of C09's scope
 					}
 					if time.Since(t0) > lim {
 						killed = "timeout"
